@@ -1,6 +1,8 @@
 (* C08 — index contents do not depend on batching (threading / caching / memory-mapping: see DESIGN.md).
    Statement-only file. *)
-From SA Require Import Base.Prelude Index.Index Index.Index_Spec Index.Index_Proofs2 Index.Index_Proofs3.
+From Coq Require Import Permutation.
+From SA Require Import Base.Prelude Index.Index Index.Index_Spec Index.Index_Proofs2 Index.Index_Proofs3
+  Query.Phrase Query.Phrase_Spec Index.Sched Index.Sched_Proofs.
 Open Scope N_scope.
 
 (* any two batch sizes give the same per-term postings, lengths and dictionary *)
@@ -25,3 +27,47 @@ Example C08_batch_sizes_agree :
 Proof. vm_compute. repeat split. Qed.
 (* Not modelled: real thread interleavings; the slotting of completed futures by batch offset is exercised by the
    check with forced completion orders. *)
+
+(* ================= worker threads: completion order and arrival-order term ids (Index/Sched.v) =================
+   Model: batches are tokenised by threads sharing ONE term dictionary that hands out ids in arrival order (any
+   interleaving of the threads' token streams: [sched]); each round of [workers] futures completes in ANY order
+   ([orders]) and is slotted by (batch_beg - last) / batch_size as _process_batches does.
+   Assumed, and tested by the check with a forced preemption: TermDict.add_term is atomic. *)
+
+(* the slotting of one round returns the batches in document order for ANY completion order *)
+Theorem C08_completion_order_irrelevant : forall (A : Type) bs last (rs : list A) completed, (1 <= bs)%nat ->
+  Permutation completed (with_begs bs last rs) -> place_round bs last (length rs) completed = Some rs.
+Proof. intro A. exact (@place_round_any_order A). Qed.
+Print Assumptions C08_completion_order_irrelevant.
+
+(* any interleaving of the worker threads yields a dictionary that is total and injective on the corpus vocabulary *)
+Theorem C08_arrival_order_dictionary : forall bs tdocs sched, complete (streams_of bs tdocs) sched = true ->
+  dict_ok (sched_dict bs tdocs sched) /\
+  (forall t, In t (concat tdocs) <-> exists i, lookup_tok (sched_dict bs tdocs sched) t = Some i) /\
+  (forall t1 t2 i, lookup_tok (sched_dict bs tdocs sched) t1 = Some i ->
+                   lookup_tok (sched_dict bs tdocs sched) t2 = Some i -> t1 = t2) /\
+  (forall t1 t2, id_of (sched_dict bs tdocs sched) t1 = id_of (sched_dict bs tdocs sched) t2 -> t1 = t2).
+Proof. exact sched_dict_total_injective. Qed.
+
+(* MAIN: two threaded builds with different batch sizes, worker counts, completion orders and thread interleavings
+   answer every query alike (and, by threaded_build_correct, like the counting specs) *)
+Theorem C08_threaded_builds_agree : forall tdocs bs1 w1 orders1 sched1 bs2 w2 orders2 sched2,
+  wf_docs tdocs ->
+  legal_orders bs1 w1 orders1 tdocs -> complete (streams_of bs1 tdocs) sched1 = true ->
+  legal_orders bs2 w2 orders2 tdocs -> complete (streams_of bs2 tdocs) sched2 = true ->
+  let d1 := sched_dict bs1 tdocs sched1 in
+  let d2 := sched_dict bs2 tdocs sched2 in
+  exists ix1 ix2,
+    index_run bs1 w1 orders1 sched1 tdocs = Some (AOk ix1) /\
+    index_run bs2 w2 orders2 sched2 tdocs = Some (AOk ix2) /\
+    (forall t, termfreqs ix1 (id_of d1 t) = termfreqs ix2 (id_of d2 t)) /\
+    (forall t, docfreq ix1 (id_of d1 t) = docfreq ix2 (id_of d2 t)) /\
+    doclengths ix1 = doclengths ix2 /\ corpus_size ix1 = corpus_size ix2 /\ total_len ix1 = total_len ix2 /\
+    (forall t, positions ix1 (id_of d1 t) = positions ix2 (id_of d2 t)).
+Proof.
+  intros tdocs bs1 w1 o1 s1 bs2 w2 o2 s2 Hwf L1 C1 L2 C2 d1 d2.
+  destruct (threaded_build_irrelevant tdocs bs1 w1 o1 s1 bs2 w2 o2 s2 Hwf L1 C1 L2 C2)
+    as (ix1 & ix2 & E1 & E2 & T & D & Le & N & To & P & _).
+  exists ix1, ix2. repeat split; assumption.
+Qed.
+Print Assumptions C08_threaded_builds_agree.
